@@ -3,6 +3,7 @@ package main
 import (
 	"encoding/json"
 	"fmt"
+	"strings"
 	"time"
 
 	"verif/catalogue"
@@ -224,8 +225,11 @@ func c07(args []string) int {
 			if fm.scn == sc.ID() {
 				continue
 			}
-			if f.Tier == "quick" && k%4 != len(sc.ID())%4 {
-				continue // quick: a quarter of the foreign kinds per history (all kinds are spread over the catalogue)
+			if f.Tier == "quick" && k%4 != len(sc.ID())%4 && kindModule(catalogue.Get(fm.scn).Kind) != kindModule(sc.Kind) {
+				// quick: every foreign kind of the history's OWN module (its handlers work on the same store objects,
+				// cursors and option copies as the history's transactions) plus a quarter of the other kinds per
+				// history (all kinds are spread over the catalogue)
+				continue
 			}
 			menu = append(menu, inj{Src: fm.scn, Tx: fm.tx, Mode: "fresh"})
 		}
@@ -333,4 +337,27 @@ func c07(args []string) int {
 		fmt.Fprintf(harness.Out(), "C07: %d harness errors: %v\n", harnessErr, errSamples)
 	}
 	return rep.Finish()
+}
+
+// kindModule groups the transaction kinds by the module whose handlers - and whose store objects - they share.
+func kindModule(k string) string {
+	switch {
+	case strings.Contains(k, "NETWORK_DELEG") || strings.Contains(k, "NETWORK_UNDELEG"):
+		return "network-delegation"
+	case strings.HasPrefix(k, "DOMAIN_"):
+		return "ons"
+	case strings.HasPrefix(k, "PROPOSAL_") || k == "EXPIRE_VOTES":
+		return "governance"
+	case k == "STAKE" || k == "UNSTAKE" || k == "WITHDRAW" || k == "WITHDRAW_REWARD":
+		return "staking"
+	case strings.HasPrefix(k, "ALLEGATION") || k == "RELEASE":
+		return "evidence"
+	case strings.HasPrefix(k, "ETH_") || strings.HasPrefix(k, "ERC20_"):
+		return "cross-chain"
+	case strings.HasPrefix(k, "BID_"):
+		return "bid"
+	case k == "SEND" || k == "SENDPOOL":
+		return "transfer"
+	}
+	return k
 }
